@@ -324,6 +324,21 @@ impl Check for C02 {
                 }
             }
         }
+        // (1b) numbers at the edge of the f64 range and other hostile literals ("every number is
+        // finite as f64"), bare and inside containers
+        {
+            let mut r = g.rng(202);
+            let n = g.count(40_000, 4_000_000);
+            for k in 0..n {
+                let t = if k % 2 == 0 { crate::gen::numlit::overflow_boundary(&mut r) } else { crate::gen::numlit::hostile(&mut r) };
+                let text = match k % 3 {
+                    0 => t,
+                    1 => format!("[{}]", t),
+                    _ => format!("{{\"a\":[1,{}],\"b\":{}}}", t, t),
+                };
+                emit(Case::new("numrange", text.into_bytes()));
+            }
+        }
         // (2) generated documents and mutations
         let mut r = g.rng(2);
         let n = g.count(120_000, 10_000_000);
@@ -343,11 +358,15 @@ impl Check for C02 {
         match c.entry.as_str() {
             "tok" => ctx.sample("token-sequence"),
             "doc" => ctx.sample("generated-document"),
+            "numrange" => {
+                ctx.class("gen:number-range");
+                ctx.sample("number-range")
+            }
             "numshape" => ctx.sample("number-shape"),
             _ => ctx.sample("mutated-document"),
         }
     }
     fn required_classes(&self, _b: &str, _t: Tier) -> Vec<&'static str> {
-        vec!["text:valid-full", "text:valid-skip-only", "text:invalid-grammar", "text:invalid-utf8"]
+        vec!["text:valid-full", "text:valid-skip-only", "text:invalid-grammar", "text:invalid-utf8", "gen:number-range"]
     }
 }
